@@ -60,6 +60,14 @@ pub fn check(c: &Case) -> CheckResult {
                 let mut res = <$Core as BlockRngCore>::Results::default();
                 let mut pos = 0;
                 while pos < c.depth {
+                    // `results` is an out-parameter: scramble it (or hand over a fresh buffer)
+                    if pos % 512 == 0 {
+                        res = <$Core as BlockRngCore>::Results::default();
+                    } else {
+                        for (k, w) in res.as_mut().iter_mut().enumerate() {
+                            *w = (*w).wrapping_mul(3).wrapping_add(k as _).wrapping_add(1);
+                        }
+                    }
                     core.generate(&mut res);
                     for (i, got) in res.as_ref().iter().enumerate() {
                         let want = m.next();
